@@ -286,6 +286,9 @@ def strata(tier, seed):
         for r0 in (1, 2):
             for dr in ((1, 1), (1, 2), (2, 2)):
                 cs.append(dict(shape=sh, rho=rho, pat='gen', r0=r0, dr=list(dr), seed=seed, prefix_runs=[]))
+    # moderately large dimension / mode size / rank (d = 6, 8; mode 17; rank 6 with modes of size 3: ranks above the mode size)
+    for sh, rho, r0, dr in (([2] * 6, 2, 1, (1, 1)), ([2] * 8, 2, 2, (0, 0)), ([17, 3, 4], 3, 1, (1, 2)), ([3] * 5, 6, 2, (2, 2)), ([7, 10], 7, 3, (2, 2)), ([3, 4, 3, 4, 3], 4, 4, (0, 0))):
+        cs.append(dict(shape=sh, rho=rho, pat='gen', r0=r0, dr=list(dr), seed=seed, prefix_runs=[1]))
     # ranks that differ from bond to bond, in the target and in the initial approximation; mode sizes that differ from mode to mode
     for sh, rk in (([3, 4, 3, 2], [1, 2, 3, 2, 1]), ([4, 3, 5], [1, 3, 2, 1]), ([2, 5, 3], [1, 2, 3, 1]), ([3, 3, 3, 3], [1, 1, 3, 1, 1]), ([4, 2, 4, 2, 3], [1, 2, 2, 3, 2, 1])):
         for r0s in ([1] + [1] * (len(sh) - 1) + [1], [1] + [1 + (k % 2) for k in range(len(sh) - 1)] + [1], [1] + [2 - (k % 2) for k in range(len(sh) - 1)] + [1]):
